@@ -129,7 +129,7 @@ static std::string get_in(Ctx& c, const J& v) {
 
 static void note_issued(std::vector<CK_ULONG>& v, CK_ULONG h) { if (std::find(v.begin(), v.end(), h) == v.end()) v.push_back(h); }
 
-#define CALL(expr) do { sim_yield(Y_CALL); c.t->in_call = true; rv = (expr); c.t->in_call = false; sim_yield(Y_CALL); } while (0)
+#define CALL(expr) do { sim_yield(Y_CALL); c.t->in_call = true; rv = (expr); c.t->in_call = false; c.t->ret_yield = true; sim_yield(Y_CALL); c.t->ret_yield = false; } while (0)
 
 static std::string label_to_ref(const std::string& label) {
     // object labels carry the harness tag as "o<digits>" prefix; token labels as "T<digits>"
